@@ -194,6 +194,7 @@ impl Scenario for Fibers {
             items.push(o);
         }
         let n = items.len();
+        install_yields(cx.src.chan("sched"));
         let mode_name = ["spawn_batch", "parallel_map", "parallel_for_each", "parallel_reduce"][mode as usize];
         cx.ev(format!("fiber pool max_fibers={} max_workers={} mode={} items={}", max_fibers, max_workers, mode_name, n));
         // item i: value, delay, fails?
@@ -289,11 +290,18 @@ impl Scenario for Fibers {
                     }
                 }
                 _ => {
-                    let r = pool.parallel_reduce(vals.clone(), 0u64, |a: u64, b: u64| Ok(a.wrapping_add(b))).await;
-                    let expect = vals.iter().fold(0u64, |a, &b| a.wrapping_add(b));
+                    // an associative, NON-commutative operator with a true identity (list concatenation):
+                    // the parallel result must equal the sequential left fold, i.e. the inputs in order
+                    let lists: Vec<Vec<u64>> = vals.iter().map(|&v| vec![v]).collect();
+                    let r = pool
+                        .parallel_reduce(lists, Vec::<u64>::new(), |mut a: Vec<u64>, b: Vec<u64>| {
+                            a.extend(b);
+                            Ok(a)
+                        })
+                        .await;
                     match r {
-                        Ok(v) if v == expect => {}
-                        Ok(v) => verdict = Some(("wrong_result".to_string(), format!("parallel_reduce(+) = {} but the sequential sum is {}", v, expect))),
+                        Ok(v) if v == vals => {}
+                        Ok(v) => verdict = Some(("wrong_result".to_string(), format!("parallel_reduce(concat) = {:?} but the sequential fold gives {:?}", v, vals))),
                         Err(e) => verdict = Some(("spurious_error".to_string(), format!("parallel_reduce returned Err({})", e))),
                     }
                 }
